@@ -187,6 +187,13 @@ def correspond(ctx):
                     c = se.finalize_cfg(name, cfg, {k.encode(): v for k, v in db.items()})
                     plan.append((name, c, db, prof, sch))
 
+        # one workflow whose largest result exceeds 1 MiB on the wire (the default frame limit of the websockets library on either
+        # side): 17 000 identifiers of 64 bytes under one keyword, next to two ordinary keywords
+        big_cfg = se.grid("PiBas", rng, 1)[0]
+        big_db = {"alpha": [os.urandom(64) for _ in range(3)], "beta": [os.urandom(64)],
+                  "big": [i.to_bytes(4, "big") + os.urandom(60) for i in range(17000)]}
+        plan.append(("PiBas", se.finalize_cfg("PiBas", big_cfg, {k.encode(): v for k, v in big_db.items()}), big_db, "result>1MiB", SCHEDULES[0]))
+
         async def main():
             outs = []
             e = E2E(env)
@@ -251,7 +258,7 @@ def correspond(ctx):
                                  dict(case, keyword=hx(w)))
         res.rule = ("all nine schemes x configurations of the small grid x schedules {client re-created at every step; + server restart after "
                     "the upload; one client object for the local steps + restart after both uploads; restarts between searches}; database given as "
-                    "JSON (utf-8 keywords incl. non-ASCII, hex identifiers; one workflow per configuration with a list of 40-90 identifiers); every stored keyword and two adversarially close absent ones searched; "
+                    "JSON (utf-8 keywords incl. non-ASCII, hex identifiers; one workflow per configuration with a list of 40-90 identifiers; one PiBas workflow with a 17 000-identifier list whose result exceeds 1 MiB on the wire); every stored keyword and two adversarially close absent ones searched; "
                     "non-trivial = distinct (scheme, schedule, list-length vector)")
         for (name, cfg, db, prof, sch) in plan[:2]:
             res.sample({"scheme": name, "schedule": sch["name"], "keywords": list(db)[:3]})
